@@ -103,3 +103,12 @@ func TestC09TrailingTokensRejected(t *testing.T) {
 }
 
 var _ = fmt.Sprint
+
+// C09: a NUL byte inside the expression is an unknown character, not the end of the input.
+func TestC09EmbeddedNulIsRejected(t *testing.T) {
+	vals := map[string]*types.Item{":y": s("x")}
+	r, err, c := match("str = :y\x00 this is (( garbage", baseItem(), vals, nil)
+	if c != nil || err == nil {
+		t.Errorf("expression with an embedded NUL followed by garbage: res=%v err=%v crash=%v, want a syntax error", r, err, c)
+	}
+}
